@@ -37,6 +37,7 @@ MODELLED = {
     "didkey": "vdr/didkey/resolver.go Resolve: checks between the DID string and the library calls (didkey_total)",
     "jwx.parse": "crypto/jwx.go JWTKidAlg, ParseJWT, ParseJWS: check order between the token bytes and the library's verification (jwx_total, jwx_accepts_only_verified); the jwx library's results are data",
     "cred.presenter": "vcr/credential util.go ResolveSubjectDID, PresenterIsCredentialSubject and resolver.go PresentationSigner, ParseLDProof on every presentation go-did parses (cred_total, cred_presenter_sound); go-did's SubjectDID / ParseDIDURL / UnmarshalProofValue and crypto.JWTKidAlg are data",
+    "jsonld.guard": "jsonld/ldutils.go LDUtil.Canonicalize, reader.go Reader.ReadBytes, jsonld.go AllFieldsDefined around the third-party JSON-LD processor: defer/recover mechanics (jsonld_total, jsonld_guard_must_be_direct); what json-gold does with the document (ok / error / PANIC) is observed on the processor itself and is data",
     "cred.dates": "vcr/credential/util.go PresentationIssuanceDate / PresentationExpirationDate on every presentation go-did parses (cred_dates_total, cred_dates_source); the jwx accessors and the first LD proof's created/expires are data",
     "cred.autocorrect": "vcr/credential/util.go AutoCorrectSelfAttestedCredential on every credential (cred_autocorrect_total, cred_autocorrect_only_fills_missing); go-did's UnmarshalCredentialSubject result is data",
     "cred.filter": "vcr/credential/util.go FilterOnDIDMethod on every credential list x 4 method lists (cred_filter_correct); did.ParseDID / UnmarshalCredentialSubject results are data",
@@ -59,6 +60,7 @@ REQUIRED = [
     "iblt_handle_set_total", "iblt_zero_buckets_never_divide", "murmur_chain_short_cycles", "iblt_unbounded_chain_hangs",
     "iblt_small_table_hangs_unfixed", "callback_total_in_handler", "callback_empty_envelope_needs_guard", "statuslist_total", "statuslist_guards_needed", "didkey_total", "callback_standalone_partial", "panic_sites_accounted",
     "fact_jwx", "jwx_total", "jwx_accepts_only_verified", "jwx_guards_needed",
+    "fact_jsonld", "jsonld_total", "jsonld_guard_must_be_direct",
     "fact_credmore", "cred_dates_total", "cred_dates_source", "cred_autocorrect_total", "cred_autocorrect_only_fills_missing", "cred_more_guards_needed", "cred_filter_correct",
     "fact_cred", "cred_total", "cred_presenter_sound", "cred_guards_needed",
     "fact_httpcache", "httpcache_make_room_terminates", "httpcache_roundtrip_total", "httpcache_unguarded_loop_spins", "httpcache_size_invariant",
